@@ -19,6 +19,8 @@ def run(ctx):
     n = 0
     for line in open(pre + ".obs"):
         d = json.loads(line)
+        if d.get("kind") != "inflight":
+            continue
         n += 1
         lo = d["logout_outcome"]
         if not d["logout_done"] or lo[:2] != [2, LOGOUT_OK[d["logout"]]]:
